@@ -64,11 +64,13 @@ func c11StressRun(out *vx.Writer, run int, rlSame, realServer bool, workers, per
 				atomic.AddInt64(&started, 1)
 				id := fmt.Sprintf("s%d-%s-%d", run, p, n)
 				r := c11NewReq(id, false)
-				tg := "srv"
+				tg, ip := "srv", "n"
 				if direct && n%2 == 0 {
 					tg = "q"
+				} else if (n+wi)%3 == 0 {
+					ip = "b" // the client address that every other options version refuses
 				}
-				out.Emit(vx.M{"ev": "r.inv", "p": p, "tg": tg})
+				out.Emit(vx.M{"ev": "r.inv", "p": p, "tg": tg, "ip": ip})
 				func() {
 					defer func() {
 						if e := recover(); e != nil {
@@ -77,17 +79,20 @@ func c11StressRun(out *vx.Writer, run int, rlSame, realServer bool, workers, per
 						}
 					}()
 					if tg == "srv" && realServer {
-						r.status = w.get(id)
+						r.status = w.get(id, ip)
 					} else if tg == "srv" {
 						rec := httptest.NewRecorder()
-						w.mux.ServeHTTP(rec, c11NewHTTPRequest(id))
+						w.mux.ServeHTTP(rec, c11NewHTTPRequest(id, ip))
 						r.status = rec.Code
 					} else {
 						r.status = w.c11Direct(r, tg)
 					}
 				}()
 				obs := r.snapshot()
-				ev := vx.M{"ev": "r.ret", "p": p, "tg": tg, "st": r.status, "panic": r.panicV != "", "site": r.site,
+				if r.status == 0 && r.panicV == "" {
+					r.site, _ = c11LastErr.Load().(string)
+				}
+				ev := vx.M{"ev": "r.ret", "p": p, "tg": tg, "ip": ip, "st": r.status, "panic": r.panicV != "", "site": r.site,
 					"pipe": "-", "g": 0, "xf": false, "v1": 0, "v2": 0, "v3": 0}
 				for _, o := range obs {
 					ev[fmt.Sprintf("v%d", o.Pos)] = o.Value
@@ -109,7 +114,7 @@ func c11StressRun(out *vx.Writer, run int, rlSame, realServer bool, workers, per
 	go func() {
 		defer wg.Done()
 		defer atomic.StoreInt32(&stop, 1)
-		gen := 1
+		gen, rv, ov := 1, 1, 1
 		ver := map[string]int{"pa": 1, "pb": 1, "q": 0}
 		nver := map[string]int{"pa": 1, "pb": 1, "q": 0} // versions used so far (a re-created q goes on counting)
 		grant(workers)
@@ -117,7 +122,15 @@ func c11StressRun(out *vx.Writer, run int, rlSame, realServer bool, workers, per
 		for k := 0; k < updates; k++ {
 			c := rng.Intn(10)
 			// specs are built before the call is logged: the inv..ret window is the real call only
-			nextSrv := c11MustSpec(c11ServerYAML(gen + 1))
+			kind := []string{"rules", "opts", "both"}[rng.Intn(3)]
+			nrv, nov := rv, ov
+			if kind != "opts" {
+				nrv++
+			}
+			if kind != "rules" {
+				nov++
+			}
+			nextSrv := c11MustSpec(c11ServerYAML(nrv, nov))
 			specOf := func(p string, v int) *supervisor.Spec { return c11MustSpec(w.c11PipelineYAML(p, v)) }
 			pp := []string{"pa", "pb", "q"}[rng.Intn(3)]
 			if ver[pp] == 0 {
@@ -132,26 +145,26 @@ func c11StressRun(out *vx.Writer, run int, rlSame, realServer bool, workers, per
 			}
 			switch {
 			case c < 3:
-				gen++
-				out.Emit(vx.M{"ev": "u.inv", "op": "srv", "o": "-", "g": gen})
+				gen, rv, ov = gen+1, nrv, nov
+				out.Emit(vx.M{"ev": "u.inv", "op": "srv", "o": "-", "g": gen, "kind": kind})
 				if !realServer {
 					w.mux.reload(nextSrv, w.mapper)
-				} else if err := w.reloadServer(nextSrv, gen); err != nil {
+				} else if err := w.reloadServer(nextSrv, rv, ov); err != nil {
 					out.Emit(vx.M{"ev": "harness-error", "what": err.Error()})
 					return
 				}
-				out.Emit(vx.M{"ev": "u.ret", "op": "srv", "o": "-", "g": gen, "kept": false})
+				out.Emit(vx.M{"ev": "u.ret", "op": "srv", "o": "-", "g": gen, "kind": kind, "kept": false})
 			case c < 6:
 				p := pp
 				nver[p]++
-				out.Emit(vx.M{"ev": "u.inv", "op": "pip", "o": p, "g": nver[p]})
+				out.Emit(vx.M{"ev": "u.inv", "kind": "-", "op": "pip", "o": p, "g": nver[p]})
 				_, e0 := w.c11VerOfEntity(p)
 				e1, err := w.tc.ApplyPipelineForSpec(c11Namespace, upSpec)
 				ver[p] = nver[p]
 				out.Emit(vx.M{"ev": "u.ret", "op": "pip", "o": p, "g": nver[p], "kept": e1 == e0, "err": err != nil})
 			case c < 7:
 				p := pp
-				out.Emit(vx.M{"ev": "u.inv", "op": "same", "o": p, "g": ver[p]})
+				out.Emit(vx.M{"ev": "u.inv", "kind": "-", "op": "same", "o": p, "g": ver[p]})
 				_, e0 := w.c11VerOfEntity(p)
 				n0 := atomic.LoadInt64(&c11Inherits)
 				e1, err := w.tc.ApplyPipelineForSpec(c11Namespace, sameSpec)
@@ -162,12 +175,12 @@ func c11StressRun(out *vx.Writer, run int, rlSame, realServer bool, workers, per
 			default:
 				if ver["q"] == 0 {
 					nver["q"]++
-					out.Emit(vx.M{"ev": "u.inv", "op": "create", "o": "q", "g": nver["q"]})
+					out.Emit(vx.M{"ev": "u.inv", "kind": "-", "op": "create", "o": "q", "g": nver["q"]})
 					_, err := w.tc.CreatePipelineForSpec(c11Namespace, qSpec)
 					ver["q"] = nver["q"]
 					out.Emit(vx.M{"ev": "u.ret", "op": "create", "o": "q", "g": nver["q"], "kept": false, "err": err != nil})
 				} else {
-					out.Emit(vx.M{"ev": "u.inv", "op": "delete", "o": "q", "g": 0})
+					out.Emit(vx.M{"ev": "u.inv", "kind": "-", "op": "delete", "o": "q", "g": 0})
 					err := w.tc.DeletePipeline(c11Namespace, "q")
 					ver["q"] = 0
 					out.Emit(vx.M{"ev": "u.ret", "op": "delete", "o": "q", "g": 0, "kept": false, "err": err != nil})
